@@ -73,7 +73,7 @@ Theorem C07_exact_umn :
     exists links fes,
       umn_scan plf fx alts w (enum_order fx enum) [] [] =
         Ok (filter (visible_umn alts w) (enum_order fx enum), links) /\
-      prep_entries (fx_skip_child fx) (umn_child plf mode w)
+      prep_entries (skip_of fx) (umn_child plf mode w)
         (sort_names (filter (visible_umn alts w) (enum_order fx enum))) = Ok fes /\
       Permutation (dir_names l)
         (filter (fun n => visible_umn alts w n && umn_listed plf mode w n &&
@@ -166,6 +166,17 @@ Theorem C07_hidden_retrievable :
     child_entry w n = Ok (w_info w n).
 Proof. exact C07Facts.hidden_retrievable. Qed.
 Print Assumptions C07_hidden_retrievable.
+
+(* the ignore pattern of the shipped configuration, as ConfigParser reads it from the conf file of the
+   tree under test (Gen/Ignore.v), hides a witness of every documented alternative and none of a few
+   plain names *)
+Theorem C07_shipped_pattern_hides_documented :
+  forallb (fun a => re_search shipped_ignore (alt_witness a)) documented_ignore = true /\
+  forallb (fun n => negb (re_search shipped_ignore (lit "/d/"%string ++ n)))
+          [lit "a.txt"%string; lit "README"%string; lit "forward"%string; lit "veronica"%string;
+           lit "keyboards"%string; lit "libs"%string; lit "x~y"%string] = true.
+Proof. exact (conj C07Facts.shipped_hides_documented C07Facts.shipped_keeps_plain_names). Qed.
+Print Assumptions C07_shipped_pattern_hides_documented.
 
 (* non-vacuity: concrete directories with a dot file, ignored files, a link file *)
 Example C07_example_umn :
